@@ -17,7 +17,34 @@ def pool(rnd):
     for label, build in all_cases().items():
         V = ConcV(rnd); module, func, octs, exp = build(V); msgs.append(bytes(octs))
     return msgs + P1_BLOCKS
+def tokens(m):
+    """COSEM list octets cut at the type tags (array / structure headers, strings with their length, fixed-width numbers, null-data); unknown octets are single tokens"""
+    out = []; i = 0; n = len(m)
+    while i < n:
+        t = m[i]
+        if t in (0x01, 0x02): w = 2
+        elif t in (0x09, 0x0A): w = 2 + (m[i + 1] if i + 1 < n else 0)
+        elif t in (0x05, 0x06): w = 5
+        elif t in (0x10, 0x12): w = 3
+        elif t in (0x0F, 0x11, 0x16, 0x03): w = 2
+        else: w = 1
+        out.append(bytes(m[i:i + w])); i += w
+    return out
+def mutate_typed(rnd, m):
+    """re-encode one element with another type / delete / duplicate an element (the octets stay a syntactically plausible list)"""
+    skip = 8 if m[:3] == b"\xe6\xe7\x00" else 0
+    toks = tokens(m[skip:])
+    if not toks: return bytes(m)
+    k = rnd.randrange(len(toks)); c = rnd.random()
+    new = [bytes([0x06]) + bytes(rnd.randrange(256) for _ in range(4)), bytes([0x12, rnd.randrange(256), rnd.randrange(256)]), bytes([0x10, 0xFF, 0xFE]), bytes([0x0F, rnd.randrange(256)]), bytes([0x16, 0x1B]), b"\x00",
+           b"\x09\x0c" + bytes([0x07, 0xE4, 1, 1, 3, 0, 0, 0, 0xFF, 0x80, 0, 0]), b"\x09\x06" + bytes([1, 1, 96, 1, 1, 255]), b"\x0a\x03abc", b"\x09\x02hi", b"\x02\x02", b"\x01\x01"]
+    if c < 0.6: toks[k] = rnd.choice(new)
+    elif c < 0.75: del toks[k]
+    elif c < 0.9: toks.insert(k, toks[k])
+    else: toks[k] = rnd.choice(new) + rnd.choice(new)
+    return bytes(m[:skip]) + b"".join(toks)
 def mutate(rnd, m):
+    if len(m) > 4 and m[0] in (0x01, 0x02, 0xE6) and rnd.random() < 0.35: return mutate_typed(rnd, m)
     m = bytearray(m); c = rnd.random()
     if not m: return bytes(m)
     if c < 0.25: return bytes(m[:rnd.randrange(len(m) + 1)])
